@@ -15,15 +15,31 @@ PRELUDES = [
      ["create", 3, "CSources", "a", "t", []], ["create", 1, "CSources", "b", "t", []], ["create", 5, "CSources", "a", "t", []],
      ["create", 1, "CDataArrays", "d", "t", [1]], ["append", 7, "LSources", 4], ["append", 7, "LSources", 2],
      ["create", 0, "CSections", "m", "t", []], ["set_link", 4, "RMetadata", 8], ["set_link", 7, "RMetadata", 8]],
+    # nested sources reached through the source lists of an array, a tag and a multi-tag; parents asked on those objects,
+    # before and after a reopen
+    [["create", 0, "CBlocks", "B", "t", []], ["create", 1, "CSources", "a", "t", []], ["create", 2, "CSources", "b", "t", []],
+     ["create", 3, "CSources", "c", "t", []], ["create", 1, "CDataArrays", "d", "t", [1]], ["create", 1, "CTags", "g", "t", [1]],
+     ["create_mtag", 1, "m", "t", 5],
+     ["append", 5, "LSources", 3], ["append", 5, "LSources", 4], ["append", 6, "LSources", 4], ["append", 6, "LSources", 2],
+     ["append", 7, "LSources", 3], ["append", 7, "LSources", 2],
+     ["lookup_link", 5, "LSources", ["pos", 0]], ["lookup_link", 5, "LSources", ["name", "c"]],
+     ["lookup_link", 6, "LSources", ["pos", 0]], ["lookup_link", 6, "LSources", ["pos", 1]],
+     ["lookup_link", 7, "LSources", ["pos", 0]], ["lookup_link", 7, "LSources", ["name", "a"]],
+     ["parent", 8, "PParent"], ["parent", 9, "PParent"], ["parent", 10, "PParent"], ["parent", 11, "PParent"],
+     ["parent", 12, "PParent"], ["parent", 13, "PParent"], ["parent", 9, "PBlock"], ["parent", 12, "PBlock"],
+     ["reopen", False],
+     ["lookup", 0, "CBlocks", ["name", "B"]], ["lookup", 1, "CDataArrays", ["name", "d"]], ["lookup", 1, "CMultiTags", ["name", "m"]],
+     ["lookup_link", 2, "LSources", ["pos", 1]], ["lookup_link", 3, "LSources", ["pos", 0]],
+     ["parent", 4, "PParent"], ["parent", 5, "PParent"], ["parent", 5, "PBlock"]],
 ]
 PROFILE = {"small_names": True, "preludes": PRELUDES, "prelude_prob": 0.5,
            "weights": {"create": 12, "find": 8, "parent": 7, "referring": 6, "set_link": 5, "append": 5, "lookup": 4,
                        "delete": 1.5, "remove": 1, "reopen": 0.8, "mtag": 1, "feature": 0.5, "set_attr": 1, "bad": 0.2,
-                       "probe": 0, "probe_link": 0}}
+                       "lookup_link": 3, "probe": 0, "probe_link": 0}}
 RULE = ("section and source trees with a four-name pool (so names repeat across subtrees and levels), built through nested "
         "creates; find_sections/find_sources from File, Block, Section and Source roots with limits None, -1, 0..5 and filters "
-        "(all / by name / by type); parent, parent_source, parent_block on handles obtained at creation, by lookup and after "
-        "reopen; referring_* of sections (metadata links from blocks, groups, arrays, tags, multi-tags, sources incl. nested) "
+        "(all / by name / by type); parent, parent_source, parent_block on handles obtained at creation, by lookup, through the "
+        "source lists of arrays, tags and multi-tags, and after reopen; referring_* of sections (metadata links from blocks, groups, arrays, tags, multi-tags, sources incl. nested) "
         "and of sources. Each answer is compared with the model AND with a model-free oracle computed by plain recursion over "
         "the containers of fresh objects.")
 
